@@ -46,31 +46,3 @@ Proof. vm_compute. reflexivity. Qed.
 Theorem c04_run_once : forall s, wf_groups s -> for_groups check_C04_group s (run_journals s) = true.
 Proof. exact run_passes_C04. Qed.
 Print Assumptions c04_run_once.
-
-(* ---------- the tie to the source: GeneratedCtl.v is re-derived from the Go source on every run (harness gen --out-ctl);
-   the decisions this property rests on, as the code states them today, are the model's ---------- *)
-From Esc Require Import GeneratedCtl proofs.GenCtlAgree proofs.GenCtlAgree_Up proofs.GenCtlAgree_MinMax.
-
-(* scale_up.go calculateNodesToAdd = nodes_to_add *)
-Theorem c04_src_clamp : forall want target maxn, gen_calculateNodesToAdd want target maxn = nodes_to_add want target maxn.
-Proof. exact gen_calculateNodesToAdd_agree. Qed.
-Print Assumptions c04_src_clamp.
-
-(* scale_up.go scaleUpCloudProviderNodeGroup: whenever nodes remain to be added after untainting, the model's scale_up does
-   what the code decides — refusal, dry-mode count, or IncreaseSize with the clamped amount *)
-Theorem c04_src_scale_up : forall e o maxn st g tainted want,
-  let dry := e_dry e || o_dry o in
-  let '(ucalls, ucount, tr) :=
-    match tainted with [] => ([], 0, g_taint_tracker st) | _ => untaint_loop e dry (sort_newest tainted) want 0 (g_taint_tracker st) end in
-  0 < want - ucount ->
-  scale_up e o maxn dry st (Some g) tainted want =
-  up_after e ucalls ucount (with_tracker st tr) (Some g) (gen_scaleUpCloudProviderNodeGroup e o maxn true g (want - ucount)).
-Proof. exact gen_scale_up_cloud. Qed.
-Print Assumptions c04_src_scale_up.
-
-(* controller.go RunOnce: the max_nodes (and min_nodes) a scan runs with are effective_min_max *)
-Theorem c04_src_min_max : forall o g,
-  (exists mn mx c, gen_RunOnce_minmax o true g = GCall c [GI mn; GI mx] /\ effective_min_max o g = (mn, mx))
-  /\ gen_RunOnce_minmax o false g = GRet [GE true].
-Proof. exact gen_RunOnce_minmax_agree. Qed.
-Print Assumptions c04_src_min_max.
